@@ -21,7 +21,7 @@ SCALES = [
     ('0.125', Fraction(1, 8)), ('1024', Fraction(1024)), ('1e9', Fraction(10**9)), ('0.4', Fraction(2, 5)), ('7.5', Fraction(15, 2)),
     ('1e8', Fraction(10**8)), ('1e10', Fraction(10**10)), ('1000000000000.', Fraction(10**12)), ('1e12', Fraction(10**12)), ('1e15', Fraction(10**15)),
     ('1e-13', Fraction(1, 10**13)), ('1e-15', Fraction(1, 10**15)), ('0.00000000000001', Fraction(1, 10**14)),
-    ('0.333333333333333333', Fraction(333333333333333333, 10**18)), ('1.00000000000000001', Fraction(10**17 + 1, 10**17)),
+    ('0.333333333333333333', Fraction(333333333333333333, 10**18)), ('1.000001000000000001', Fraction(10**18 + 10**12 + 1, 10**18)),
     ('2.718281828459045235', Fraction(2718281828459045235, 10**18)), ('1234.000000000000001', Fraction(1234 * 10**15 + 1, 10**15)),
     ('1', Fraction(1)), ('1.0', Fraction(1)), ('100', Fraction(100)), ('1e2', Fraction(100)), ('0.01', Fraction(1, 100)),
 ]
